@@ -1047,7 +1047,18 @@ def run(ctx):
         oracle(ctx, random.Random(ctx.seed + 1))
         return len(ctx.violations) + len(ctx.known) > n0
 
-    vlib.standard_proof_step(ctx, ["Props/C20.vo"], ["Props/C20.v"], search)
+    proved = vlib.standard_proof_step(ctx, ["Props/C20.vo"], ["Props/C20.v"], search)
+    if proved and not ctx.quick:
+        # independent re-check of the compiled proofs by the stand-alone checker
+        with vlib.Lock("coq"):
+            rc, out = vlib.sh(["timeout", "900", "coqchk", "-silent", "-o", "-Q", ".", "QV",
+                               "QV.Props.C20"], timeout=930, cwd=vlib.COQ)
+        okchk = rc == 0 and "Axioms: <none>" in out
+        ctx.cov["coqchk"] = "ok: Axioms <none>" if okchk else out[-600:]
+        ctx.add_obligation("coqchk QV.Props.C20", okchk)
+        if not okchk:
+            ctx.violation("proof:coqchk", "Props.C20", "coqchk rejects Props/C20.vo or reports axioms",
+                          {"log": out[-2000:]}, found_input=False)
 
     if gen is not None:
         ok, out = vlib.coqc_file("Gen/C20_gates.v")
@@ -1152,7 +1163,13 @@ def replay(ctx, payload):
         if r[0] == "err":
             ctx.violation(site, payload["signature"], "destroy(1) raises: %s" % r[2], d)
         return
+    if site == "flags:dimension-1-literals":
+        for ob, nm in ((q.enr_destroy([1], 0)[0], "enr_destroy"), (q.qft(1), "qft")):
+            check_cached_flags(ctx, nm, [1], ob)
+        report_flags(ctx)
+        return
     if site.startswith("operators.qdiags:is") or site.startswith("flags:"):
+        d = d.get("first", d)
         name, args = d.get("constructor"), d.get("args", [])
         cands = {"num": lambda: q.num(2), "qdiags": lambda: q.qdiags([-1j], 0)}
         ob = None
@@ -1160,7 +1177,10 @@ def replay(ctx, payload):
             ob = getattr(q, name)(*args)
         except Exception:
             ob = cands.get(name, cands["num"])()
+        if site == "operators.qdiags:isherm":
+            ob = q.qdiags([-1j], 0)
         check_cached_flags(ctx, name, args, ob)
+        report_flags(ctx)
         return
     if site == "operators.qdiags:offdiagonal-zero":
         ob = q.qdiags([0, 0], 1)
